@@ -18,7 +18,8 @@ def ecs_family(ctx, thorough):
         for b in behs:
             steps = []
             for lab, st in b[1:]:
-                m = re.match(r"Query\((\d+),\s*(\d+),\s*(\d+)\)", lab)
+                # Ecs.tla's Query carries two more arguments (cd, upstream CD bit) since the C03 audience tier; fixed here by the cfgs
+                m = re.match(r"Query\((\d+),\s*(\d+),\s*(\d+)[,)]", lab)
                 if not m:
                     raise vf.MachineryError("unexpected label " + lab)
                 steps.append({"c": int(m.group(1)), "sent": int(m.group(2)), "scope": int(m.group(3)),
